@@ -39,6 +39,17 @@ var (
 	// interrupted.
 	Interrupted = errors.New(InterruptedMessage)
 
+	// MaxCallStackSize limits the depth of nested calls in a
+	// script.  Without a limit, unbounded recursion ends only when
+	// the execution's time is up, and when it goes through a
+	// built-in (function f(){ [1].forEach(f) }) unwinding what
+	// has piled up by then takes minutes after a single second.
+	MaxCallStackSize = 2048
+
+	// TooDeep is returned by Exec if the script's calls nest more
+	// deeply than MaxCallStackSize.
+	TooDeep = errors.New("RangeError: maximum call stack size exceeded")
+
 	// IgnoreExit will prevent the Goja function "exit" from
 	// terminating the process. Being able to halt the process
 	// from Goja is useful for some tests and utilities.  Maybe.
@@ -237,6 +248,7 @@ func (i *Interpreter) Exec(ctx context.Context, bs match.Bindings, props core.St
 	}
 
 	o := goja.New()
+	o.SetMaxCallStackSize(MaxCallStackSize)
 
 	o.Set("_", env)
 
@@ -419,6 +431,9 @@ func (i *Interpreter) Exec(ctx context.Context, bs match.Bindings, props core.St
 	if err != nil {
 		if _, is := err.(*goja.InterruptedError); is {
 			return nil, Interrupted
+		}
+		if _, is := err.(*goja.StackOverflowError); is {
+			return nil, TooDeep
 		}
 		return nil, err
 	}
